@@ -32,6 +32,17 @@ def sc {α} (f : α → String) : Res (α × Nat) → String
   | .err e _ => "!" ++ errName e
   | .panic => "PANIC"
 
+/-- are the tags of the table strictly increasing (a well-formed table)? -/
+def tagsSorted (m : MsgV) : Nat → Nat → Option Nat → Bool
+  | 0, _, _ => true
+  | k+1, i, prev =>
+    match m.tagAt i with
+    | .ok (some t) =>
+      (match prev with
+       | some p => p < t && tagsSorted m k (i + 1) (some t)
+       | none => tagsSorted m k (i + 1) (some t))
+    | _ => false
+
 mutual
 def walk (F : FloatOps) : Nat → Bytes → String
   | 0, _ => "FUEL"
@@ -61,7 +72,7 @@ def walk (F : FloatOps) : Nat → Bytes → String
       | .panic => "PANIC"
     else if t = tMessage ∨ t = tBigMessage then
       match openMessageErr v with
-      | .ok m => "{" ++ walkFields F fuel m m.fields 0 ++ "}"
+      | .ok m => "{" ++ walkFields F fuel m (tagsSorted m m.fields 0 none) m.fields 0 ++ "}"
       | .err e _ => "!M" ++ errName e
       | .panic => "PANIC"
     else "?" ++ toString t.toNat
@@ -75,7 +86,7 @@ def walkElems (F : FloatOps) (fuel : Nat) (l : ListV) : Nat → Nat → String
       | .panic => "PANIC"
     e ++ "," ++ walkElems F fuel l k (i + 1)
 
-def walkFields (F : FloatOps) (fuel : Nat) (m : MsgV) : Nat → Nat → String
+def walkFields (F : FloatOps) (fuel : Nat) (m : MsgV) (sorted : Bool) : Nat → Nat → String
   | 0, _ => ""
   | k+1, i =>
     let tg := match m.tagAt i with
@@ -87,7 +98,16 @@ def walkFields (F : FloatOps) (fuel : Nat) (m : MsgV) : Nat → Nat → String
       | .ok b => walk F fuel b
       | .err _ _ => "!F"
       | .panic => "PANIC"
-    tg ++ "=" ++ f ++ "," ++ walkFields F fuel m k (i + 1)
+    -- a field of a table with strictly increasing tags must also be found by its tag
+    let byTag := match m.tagAt i with
+      | .ok (some t) =>
+        if sorted then
+          (match m.field t, m.fieldAt i, m.hasField t with
+           | .ok a, .ok b, .ok h => if a == b && (h || b.isEmpty) then "" else "!TAGLOOKUP"
+           | _, _, _ => "PANIC")
+        else ""
+      | _ => ""
+    tg ++ "=" ++ f ++ byTag ++ "," ++ walkFields F fuel m sorted k (i + 1)
 end
 
 end SpecVerif
